@@ -27,7 +27,10 @@ payload!(B2);
 /// same `TypeId`, so a mix-up between the two families can only show when a type is used in both.
 pub type E1 = B1;
 pub type E2 = B2;
-payload!(P1);
+/// System event payload: optionally carries an `AutoDespawnSignal` of a plain entity, so that releasing the payload
+/// makes the framework's garbage collector despawn that entity (an "automatic despawn" cause for C08).
+pub struct P1(pub u32, pub Option<AutoDespawnSignal>);
+impl Drop for P1 { fn drop(&mut self) { emit(json!({"t":"drop","p":self.0})); } }
 
 #[derive(ReactComponent, PartialEq, Debug)]
 pub struct C1(pub u32);
@@ -167,6 +170,8 @@ pub enum Op
 {
     Run(u8),
     SysEv(u8, u32),
+    /// system, payload, entity whose auto-despawn signal travels in the payload
+    SysEvSig(u8, u32, u8),
     Bc(u8, u32),
     EEv(u8, u8, u32),
     Res(u8),
@@ -210,6 +215,7 @@ impl Op
         {
             "run" => Op::Run(n8(1)),
             "sysev" => Op::SysEv(n8(1), n32(2)),
+            "sysevsig" => Op::SysEvSig(n8(1), n32(2), n8(3)),
             "bc" => Op::Bc(n8(1), n32(2)),
             "eev" => Op::EEv(n8(1), n8(2), n32(3)),
             "res" => Op::Res(n8(1)),
@@ -244,6 +250,7 @@ impl Op
         {
             Op::Run(s) => json!(["run", s]),
             Op::SysEv(s, p) => json!(["sysev", s, p]),
+            Op::SysEvSig(s, p, e) => json!(["sysevsig", s, p, e]),
             Op::Bc(t, p) => json!(["bc", t, p]),
             Op::EEv(e, t, p) => json!(["eev", e, t, p]),
             Op::Res(r) => json!(["res", r]),
@@ -310,8 +317,10 @@ pub enum Step
     Gc,
     /// `schedule_removal_and_despawn_reactors(world)`
     Poll,
-    /// World::clear_trackers (what `App::update` does at the end of a frame).
+    /// A frame with no user systems: `App::update` (Last schedule = GC then poll, then `World::clear_trackers`).
     Clear,
+    /// A frame: the ops are issued by a plain system in `Update`, then the rest of `App::update` as in `Clear`.
+    Frame(Vec<Op>),
 }
 
 impl Step
@@ -323,6 +332,7 @@ impl Step
             "gc" => Step::Gc,
             "poll" => Step::Poll,
             "clear" => Step::Clear,
+            "frame" => Step::Frame(v["ops"].as_array().map(|a| a.iter().map(Op::from_json).collect()).unwrap_or_default()),
             _ => Step::Ops(v["ops"].as_array().map(|a| a.iter().map(Op::from_json).collect()).unwrap_or_default()),
         }
     }
@@ -333,6 +343,7 @@ impl Step
             Step::Gc => json!({"kind":"gc"}),
             Step::Poll => json!({"kind":"poll"}),
             Step::Clear => json!({"kind":"clear"}),
+            Step::Frame(ops) => json!({"kind":"frame","ops":ops.iter().map(|o| o.to_json()).collect::<Vec<_>>()}),
             Step::Ops(ops) => json!({"kind":"ops","ops":ops.iter().map(|o| o.to_json()).collect::<Vec<_>>()}),
         }
     }
